@@ -484,6 +484,11 @@ static std::string stepOld(const Toks& t)
 		if (op == "xreopen") r += " " + rawStr(0);
 		return r;
 	}
+	if (op == "xdirlines" && t.size() == 1) {
+		// a path that can be opened but not read (a directory): fgets fails without reaching the end of the file;
+		// lines() must come back (repair 9eba4eb)
+		return showLines(TextFile(String((root1 + "/d1").c_str())).lines());
+	}
 	if (op == "xwlines" && t.size() == 2) {
 		// TextFile: write through the object, then lines() of the same object, text(), lines() twice more
 		if (!parseBytes(t[1], bs)) return "bad-op";
